@@ -13,7 +13,10 @@ RULE = (
     "Hypothesis: descriptions of 1-4 non-overlapping items generated from an item list (limits spelled as decimal, "
     "0x-hex with mixed case, quoted char, escaped char, symbolic name; separators '...', ':' and U+2026; optional "
     "blanks) for Range, and decimal limits (0-3 fractional digits) for DecimalRange, each probed with every limit, "
-    "its neighbours, mid points, far values and random values. Exhaustive: all 1-2 item descriptions with limits in "
+    "its neighbours, mid points, far values and random values; a further family draws all limits from 17 code points "
+    "whose quoted spelling contains a grammar character (both quotes, backslash, the separators, comma, minus, '#', "
+    "blank, digits, 'x', 't') and spells most of them quoted or escaped, another has up to 14 items in any order. "
+    "Exhaustive: all 1-2 item descriptions with limits in "
     "{-2..2, none} x 3 separator spellings x all values -4..4. Thorough only: 12 atheris campaigns (coverage-guided, "
     "bytes decoded to text or to a token sequence) whose target holds a reference recogniser of the documented "
     "grammar and the same oracle. A case is one (description, probe set); it is "
@@ -258,6 +261,9 @@ def run(ctx):
     ctx.hyp("decimal-range", gen_range.dec_range_cases, check_case, ctx.n(1500, 50000))
     small = lambda: gen_range.int_range_cases(limits=gen_range.st.integers(-6, 6))  # noqa: E731
     ctx.hyp("range-small", small, check_case, ctx.n(1000, 30000))
+    ctx.hyp("range-meta-chars", gen_range.meta_char_range_cases, check_case, ctx.n(2000, 60000))
+    many = lambda: gen_range.int_range_cases(14, gen_range.st.integers(-400, 400))  # noqa: E731
+    ctx.hyp("range-many-items", many, check_case, ctx.n(800, 30000))
     if not ctx.quick:
         # coverage-guided supplement (thorough only; approximately reproducible from the seed, the saved failing
         # text is the exactly reproducible unit)
